@@ -270,7 +270,16 @@ def ensure_makefile():
 def make_targets(targets, timeout=1500, jobs=16):
     ensure_makefile()
     t = " ".join(targets)
-    return sh(f"timeout {timeout} make -j{jobs} {t}", timeout + 30, cwd=COQ)
+    rc, _, _ = sh(f"make -q {t}", 120, cwd=COQ)
+    if rc == 0:
+        return 0, "", ""          # up to date: nothing is written
+    if LOCK is not None:
+        LOCK.writer()
+    try:
+        return sh(f"timeout {timeout} make -j{jobs} {t}", timeout + 30, cwd=COQ)
+    finally:
+        if LOCK is not None:
+            LOCK.writer_done()
 
 
 def scan_forbidden():
@@ -312,7 +321,8 @@ def check_props(ctx, timeout=900):
         ctx.proof.update(ok=False, theorems=theorems, error=f"build of {deps} failed at {where}: " + err[-1500:], failed_at=where)
         return
     # always re-check the property file itself
-    rc, out, err = sh(f"timeout {timeout} coqc -Q . RV -w none {pfile}", timeout + 30, cwd=COQ)
+    os.makedirs(os.path.join(BUILD, "props"), exist_ok=True)
+    rc, out, err = sh(f"timeout {timeout} coqc -Q . RV -w none -o {BUILD}/props/{prop}.vo {pfile}", timeout + 30, cwd=COQ)
     if rc != 0:
         ctx.proof.update(ok=False, theorems=theorems, error="coqc " + pfile + ": " + err[-1500:], failed_at=pfile)
         return
@@ -380,12 +390,35 @@ def write_evidence(ctx, extra_trusted=None, checker_cmd=None):
 
 
 class Lock:
+    """build mutex + readers/writer lock on the compiled files: builders serialise among themselves and take the
+    writer side only when make has work to do; harness phases hold the reader side"""
+
     def __enter__(self):
         os.makedirs(BUILD, exist_ok=True)
-        self.f = open(os.path.join(BUILD, ".lock"), "w")
-        fcntl.flock(self.f, fcntl.LOCK_EX)
+        self.m = open(os.path.join(BUILD, ".build.lock"), "w")
+        self.rw = open(os.path.join(BUILD, ".rw.lock"), "w")
+        fcntl.flock(self.m, fcntl.LOCK_EX)
+        self.state = "building"
         return self
 
+    def writer(self):
+        fcntl.flock(self.rw, fcntl.LOCK_EX)
+
+    def writer_done(self):
+        fcntl.flock(self.rw, fcntl.LOCK_UN)
+
+    def share(self):
+        fcntl.flock(self.rw, fcntl.LOCK_SH)
+        fcntl.flock(self.m, fcntl.LOCK_UN)
+        self.state = "shared"
+
     def __exit__(self, *a):
-        fcntl.flock(self.f, fcntl.LOCK_UN)
-        self.f.close()
+        for f in (self.rw, self.m):
+            try:
+                fcntl.flock(f, fcntl.LOCK_UN)
+            except Exception:  # noqa: BLE001
+                pass
+            f.close()
+
+
+LOCK = None
